@@ -9,6 +9,7 @@ Diff(r, exp) ==
   ELSE {"wrong-" \o k : k \in {k2 \in DOMAIN exp : r[k2] # exp[k2]}}
 
 Pre(c) == IF c THEN {} ELSE {"HARNESS-PRECONDITION"}
+Res(r, x) == Diff(r, [r |-> x])
 
 SrcOk(r) == ("src" \in DOMAIN r /\ "xs" \in DOMAIN r /\ r.src = "set") => IsStrictlySorted(r.xs)
 
@@ -69,7 +70,80 @@ AlgReasons(r) ==
     [] f = "tuple_map" -> Diff(r, TupleMapR(r.ft, r.xs))
     [] f = "tuple_concat" -> Diff(r, [r |-> TupleConcat(r.ts)])
     [] f = "tuple_push_back" -> Diff(r, [r |-> TuplePushBack(r.a, r.x)])
+  (* extension round *)
+    [] f = "equal" -> Res(r, Equal(r.xs, r.ys))
+    [] f = "contains_key" -> Res(r, FindElemR(r.ek, r.xs, r.k).pos # None)
+    [] f = "container_find_opt" -> Res(r, FindElemR(r.ek, r.xs, r.k).elem)
+    [] f = "container_find_opt_iterator" -> Res(r, FindElemR(r.ek, r.xs, r.k).pos)
+    [] f = "insert_set" -> Pre(IsStrictlySorted(r.a)) \cup Diff(r, InsertSetR(r.a, r.x))
+    [] f = "insert_map" -> Pre(IsMapSeq(r.m)) \cup Diff(r, InsertMapR(r.m, r.k, r.x))
+    [] f = "container_make" -> Res(r, ContainerMake(r.tgt, r.xs))
+    [] f = "maybe_front" -> Res(r, MaybeFront(r.xs))
+    [] f = "maybe_back" -> Res(r, MaybeBack(r.xs))
+    [] f = "maybe_front_mut" -> Diff(r, MaybeFrontMutR(r.xs, r.bump))
+    [] f = "maybe_back_mut" -> Diff(r, MaybeBackMutR(r.xs, r.bump))
+    [] f = "pop_front" -> Diff(r, PopFrontR(r.xs))
+    [] f = "pop_back" -> Diff(r, PopBackR(r.xs))
+    [] f = "container_size" -> Res(r, SizeOf(r.xs))
+    [] f \in {"data", "range_begin_end"} -> Diff(r, DataR(r.xs))
+    [] f \in {"container_output", "array_output"} -> Res(r, SeqText(r.xs))
+    [] f = "tuple_output" -> Res(r, TupleText(r.xs))
+    [] f = "enum_array_output" -> Pre(Len(r.names) = Len(r.xs)) \cup Res(r, EnumArrayText(r.names, r.xs))
+    [] f = "index_map_get" -> Diff(r, IndexMapGetR(r.xs, r.i, LAMBDA j : Ap(r.ft, j % 3), r.bump))
+    [] f = "index_map_subscript" -> Diff(r, IndexMapSubscriptR(r.xs, r.i, r.bump))
+    [] f = "range_empty" -> Res(r, RangeEmpty(r.xs))
+    [] f = "range_size" -> Res(r, RangeSize(r.xs))
+    [] f = "range_singular" -> Res(r, RangeSingular(r.xs))
+    [] f = "range_from_pair" -> Pre(0 <= r.i /\ r.i <= r.j /\ r.j <= Len(r.xs)) \cup Res(r, RangeFromPair(r.xs, r.i, r.j))
+    [] f \in {"array_apply", "tuple_apply"} -> Pre(Len(r.a) = Len(r.b)) \cup Diff(r, ArrayApplyR(r.ft2, r.a, r.b))
+    [] f \in {"array_make", "tuple_make", "tuple_from_array"} -> Res(r, r.xs)
+    [] f = "array_members" -> Diff(r, ArrayMembersR(r.xs))
+    [] f = "tuple_get" -> Diff(r, [get |-> r.xs])
+    [] f \in {"array_eq", "tuple_eq", "enum_array_eq"} -> Res(r, r.a = r.b)
+    [] f = "array_ne" -> Res(r, r.a # r.b)
+    [] f = "tuple_invoke" -> Diff(r, TupleInvokeR(r.ft, r.xs))
+    [] f = "tuple_init" -> Diff(r, TupleInitR(r.n, r.ft))
+    [] f = "enum_array_init" -> Diff(r, EnumArrayInitR(r.n, r.ft))
+    [] f = "enum_array_at" -> Pre(0 <= r.e /\ r.e < Len(r.xs)) \cup Diff(r, EnumArrayAtR(r.xs, r.e, r.bump))
+    [] f = "enum_index_of_array" -> Res(r, EnumIndexOfArray(r.xs, r.v))
+    [] f = "enum_to_static" -> Pre(0 <= r.e /\ r.e < r.n) \cup Diff(r, EnumToStaticR(r.ft, r.e))
+    [] f = "enum_names" -> Res(r, r.names)
+    [] f = "enum_from_string" -> Res(r, EnumFromString(r.names, r.s))
+    [] f = "enum_consts" -> Diff(r, EnumConstsR(r.n - 1))
     [] OTHER -> {"unknown-function"}
 
-AlgReasonsChecked(r) == AlgReasons(r) \cup (IF SrcOk(r) THEN {} ELSE {"HARNESS-PRECONDITION"})
+(* SCOPE.  A record kind is IN SCOPE iff the statement of C16 (properties.jsonl) names the function:
+   "the fcppt.algorithm functions (map, map_optional, map_concat, fold, fold_break, loop, loop_break,
+   all_of, contains(_if), find_opt/find_if_opt/find_by_opt, index_of, binary_search, equal_range,
+   remove(_if), unique(_if), reverse, repeat, generate_n, split_string/join_strings, map_iteration,
+   sequence_iteration) and the container/array/tuple helpers (join, at_optional, find_opt_mapped,
+   get_or_insert, key_set, map_values, set_union/intersection/difference,
+   array::map/join/append/push_back/init/from_range, tuple::map/concat/push_back) return exactly what
+   the obvious loop-based specification returns, visit elements in order, stop where documented, and
+   split_string is inverted by join_strings."
+   Only these kinds can produce a VIOLATION.  Every other kind (map_iteration_second,
+   get_or_insert_with_result and everything added in the extension round) is OBSERVED ONLY: judged
+   and counted, disagreements reported as observations.  Inside an in-scope kind the fields in
+   ObservedFields are observed only as well ("present": that create() runs before the insertion is
+   stated by get_or_insert's documentation, not by the property). *)
+InScope ==
+  {"map", "map_optional", "map_concat", "fold", "fold_break", "loop", "loop_break", "all_of",
+   "contains", "contains_if", "find_opt", "find_if_opt", "find_by_opt", "index_of", "binary_search",
+   "equal_range", "remove", "remove_if", "unique", "unique_if", "reverse", "repeat", "generate_n",
+   "split_string", "join_strings", "split_join",            \* "split_string is inverted by join_strings"
+   "map_iteration", "sequence_iteration",
+   "join", "at_optional", "at_optional_mut",                \* at_optional's result is a reference to that element
+   "find_opt_mapped", "find_opt_mapped_mut", "get_or_insert", "key_set",
+   "map_values_copy", "map_values_ref", "map_values_ref_mut", \* "map_values"
+   "set_union", "set_intersection", "set_difference",
+   "array_map", "array_join", "array_append", "array_push_back", "array_init", "array_from_range",
+   "tuple_map", "tuple_concat", "tuple_push_back"}
+ObservedFields == {"wrong-present"}
+Infra == {"HARNESS-PRECONDITION", "unknown-function"}
+Scoped(r, ws) ==
+  {IF w \in Infra THEN w
+   ELSE IF r.f \in InScope /\ w \notin ObservedFields THEN w
+   ELSE "observed-" \o w : w \in ws}
+
+AlgReasonsChecked(r) == Scoped(r, AlgReasons(r)) \cup (IF SrcOk(r) THEN {} ELSE {"HARNESS-PRECONDITION"})
 =============================================================================
